@@ -517,11 +517,14 @@ Fixpoint alookup {A} (k : string) (l : list (string * A)) : option A :=
 (* isSizeMismatch *)
 Definition size_mismatch (req found : Z) : bool := (req >? -1) && (found >? -1) && negb (req =? found).
 
-(* does disk.Put(CAS, d, b) succeed (given space): guards, empty-blob shortcut, verification *)
+(* does disk.Put(CAS, d, b) succeed (given space): guards, empty-blob case (one byte is read:
+   any data is a bad request), verification *)
 Definition cas_put_ok (d : digest) (b : bytes) : option errc :=
   if size_bytes d <? 0 then Some EBadRequest else
   if negb (slen (hash d) =? sha256HashStrSize) then Some EBadRequest else
-  if (size_bytes d =? 0) && String.eqb (hash d) emptySha then None else
+  if (size_bytes d =? 0) && String.eqb (hash d) emptySha then
+    (* the empty blob: nothing to store, but data declared to be the empty blob is refused *)
+    (if blen b >? 0 then Some EBadRequest else None) else
   if (blen b =? size_bytes d) && String.eqb (bsha b) (hash d) then None else Some EInternal.
 
 Definition ms_put (s : mstore) (o : store_op) : mstore * option errc :=
